@@ -15,3 +15,5 @@ def run(rep, tier, seed, scratch):
     for u in (Penalty(), Loop()):
         run_unit(rep, u, u.gen(g, tier), scratch)
     camp_props.run_single(rep, 'C06', tier, seed, 60, 500)
+    # single precision: every dtype-dependent path (empty blocks, fast paths) on data that is exact in binary32
+    camp_props.run_single(rep, 'C06', tier, seed + 3, 24, 120, allow={'precision': 'Single', 'iteration_limit': 40}, name='single_precision')
